@@ -8,6 +8,9 @@ import (
 	"fmt"
 	"io"
 	"log/slog"
+	"runtime"
+	"sync"
+	"sync/atomic"
 	"testing"
 	"time"
 
@@ -53,6 +56,45 @@ func TestVerif_Bucket(t *testing.T) {
 			}
 			tr.Emit("Req", "r", fmt.Sprintf("b%d-%d", sn, n), "ip", ip, "send", send, "recv", recv, "st", st, "adm", adm,
 				"size", 10, "lenmode", "cl", "route", "proxy", "upLen", 10)
+		}
+		// first contact under contention: 32 callers of one address the limiter has never seen, released
+		// together -- they must share ONE bucket (repeated for a few fresh addresses: the window is narrow)
+		for f := 0; f < 4; f++ {
+			ip := fmt.Sprintf("10.0.9.%d", f+1)
+			var ready atomic.Int64
+			var goFlag atomic.Bool
+			var wg sync.WaitGroup
+			type one struct {
+				send, recv int64
+				adm        bool
+			}
+			res := make([]one, 32)
+			for k := range res {
+				wg.Add(1)
+				go func(k int) {
+					defer wg.Done()
+					ready.Add(1)
+					for !goFlag.Load() {
+					}
+					send := ms()
+					r, err := rl.Validate(context.Background(), ports.SecurityRequest{ClientID: ip, Endpoint: "/olla/proxy/x", Method: "POST"})
+					res[k] = one{send, ms(), err == nil && r.Allowed}
+				}(k)
+			}
+			for ready.Load() < int64(len(res)) {
+				runtime.Gosched()
+			}
+			goFlag.Store(true)
+			wg.Wait()
+			for _, o := range res {
+				n++
+				st := 429
+				if o.adm {
+					st = 200
+				}
+				tr.Emit("Req", "r", fmt.Sprintf("b%d-%d", sn, n), "ip", ip, "send", o.send, "recv", o.recv, "st", st, "adm", o.adm,
+					"size", 10, "lenmode", "cl", "route", "proxy", "upLen", 10)
+			}
 		}
 		for round := 0; round <= sc.Rolls; round++ {
 			for i := 0; i < sc.Burst+3; i++ {
